@@ -230,3 +230,166 @@ Proof.
   exists (VName x). split; [exact H|]. cbn [force]. rewrite (read_same (mods b) e e2 x Hs); [exact Hr|].
   intros Hin. apply (disjoint_spec _ _ Hd x Hin). apply in_or_app. left. apply lval_reads, Hl.
 Qed.
+
+Lemma refines_cases e a : refines e a ->
+  (exists ec n v, eval_c e a = (ec, Ok n) /\ agree e a ec n /\ keeps_readable e ec /\ eval_i e a = (ec, Ok v) /\ force ec v = Ok n
+                  /\ same_except (mods a) e ec) \/
+  (exists ec k ei k', eval_c e a = (ec, Err k) /\ eval_i e a = (ei, Err k')).
+Proof.
+  unfold refines. destruct (eval_c e a) as [ec [n|k| |]] eqn:Ec; intros H; try contradiction.
+  - left. destruct H as [Ha Hk]. destruct (agree_force _ _ _ _ Ha) as (v & Ev & Fv).
+    exists ec, n, v. split; [reflexivity|]. split; [exact Ha|]. split; [exact Hk|]. split; [exact Ev|]. split; [exact Fv|].
+    pose proof (eval_i_frame a e) as F. rewrite Ev in F. exact F.
+  - right. destruct H as (ei & k' & Ei). exists ec, k, ei, k'. auto.
+Qed.
+
+Lemma keeps_trans a b c : keeps_readable a b -> keeps_readable b c -> keeps_readable a c.
+Proof. unfold keeps_readable. auto. Qed.
+
+Lemma keeps_refl a : keeps_readable a a.
+Proof. unfold keeps_readable. auto. Qed.
+
+Lemma keeps_write e x n : in_range n -> keeps_readable e (write_var e x n).
+Proof. intros H y Hy. apply readable_write; assumption. Qed.
+
+Lemma num_keeps e e' l : keeps_readable e e' -> num e l -> num e' l.
+Proof. intros K H. apply num_iff. intros x Hx. apply K. apply (proj1 (num_iff e l) H x Hx). Qed.
+
+Lemma num_app e l1 l2 : num e (l1 ++ l2) -> num e l1 /\ num e l2.
+Proof. apply numeric_app. Qed.
+
+Lemma num_read e l x : num e l -> In x l -> exists n, read_var e x = Ok n.
+Proof. intros H Hx. apply (proj1 (num_iff e l) H x Hx). Qed.
+
+Lemma calc_total o l r : (exists n, calc o l r = Ok n) \/ (exists k, calc o l r = Err k).
+Proof. destruct o; cbn; repeat match goal with |- context [if ?c then _ else _] => destruct c end; eauto. Qed.
+
+Lemma incdec_refines e a d post (Hd : d = 1 \/ d = -1) :
+  (forall e, c_defined a = true -> eager_safe a = true -> num e (reads a) -> refines e a) ->
+  c_defined a = true -> eager_safe a = true -> num e (reads a) ->
+  match c_incdec e a d post with
+  | (ec, Ok n) => (abind (eval_i e a) (fun e v => incdec e v d post) = (ec, Ok (VNum n))) /\ keeps_readable e ec
+  | (_, Err _) => exists ei k, abind (eval_i e a) (fun e v => incdec e v d post) = (ei, Err k)
+  | _ => False
+  end.
+Proof.
+  intros IH Hc Hs Hn. unfold c_incdec. destruct (lval a) as [x|] eqn:El.
+  - destruct (num_read e _ x Hn (lval_reads a x El)) as [n Hr].
+    rewrite (eval_i_lval a e x El). cbn [abind incdec alift]. rewrite Hr. cbn [abind]. split; [reflexivity|].
+    apply keeps_write, wrap64_range.
+  - destruct (refines_cases e a (IH e Hc Hs Hn)) as [(ec & n & v & Ec & Ha & Hk & Ei & Fv & Fr)|(ec & k & ei & k' & Ec & Ei)].
+    + destruct Ha as [Ha|(x & _ & Hl & _)]; [|congruence]. rewrite Ha. cbn. eauto.
+    + rewrite Ei. cbn. eauto.
+Qed.
+
+Lemma split3 (a b c : bool) : a && b && c = true -> a = true /\ b = true /\ c = true.
+Proof. intros H. apply andb_true_iff in H as [H H3]. apply andb_true_iff in H as [H1 H2]. auto. Qed.
+
+Ltac err_i E := eexists; eexists; cbn [eval_i]; rewrite ?E; cbn [abind]; reflexivity.
+
+Theorem refines_all a : forall e, c_defined a = true -> eager_safe a = true -> num e (reads a) -> refines e a.
+Proof.
+  induction a; intros e Hc Hs Hn; cbn [c_defined eager_safe reads] in Hc, Hs, Hn.
+  - (* number *) unfold refines. cbn [eval_c]. destruct (parse_int0 s) as [n|] eqn:E.
+    + split; [left; cbn [eval_i]; rewrite E; reflexivity|apply keeps_refl].
+    + exists e, KInvalidNumber. cbn [eval_i]. rewrite E. reflexivity.
+  - (* variable *) unfold refines. cbn [eval_c alift]. destruct (num_read e _ x Hn (or_introl eq_refl)) as [n Hr]. rewrite Hr.
+    split; [right; exists x; cbn; auto|apply keeps_refl].
+  - (* parentheses *) exact (IHa e Hc Hs Hn).
+  - (* x++ *) pose proof (incdec_refines e a 1 true (or_introl eq_refl) IHa Hc Hs Hn) as H. unfold refines. cbn [eval_c].
+    destruct (c_incdec e a 1 true) as [ec [n|k| |]]; try contradiction; [destruct H as [H1 H2]; split; [left; exact H1|exact H2]|exact H].
+  - pose proof (incdec_refines e a (-1) true (or_intror eq_refl) IHa Hc Hs Hn) as H. unfold refines. cbn [eval_c].
+    destruct (c_incdec e a (-1) true) as [ec [n|k| |]]; try contradiction; [destruct H as [H1 H2]; split; [left; exact H1|exact H2]|exact H].
+  - pose proof (incdec_refines e a 1 false (or_introl eq_refl) IHa Hc Hs Hn) as H. unfold refines. cbn [eval_c].
+    destruct (c_incdec e a 1 false) as [ec [n|k| |]]; try contradiction; [destruct H as [H1 H2]; split; [left; exact H1|exact H2]|exact H].
+  - pose proof (incdec_refines e a (-1) false (or_intror eq_refl) IHa Hc Hs Hn) as H. unfold refines. cbn [eval_c].
+    destruct (c_incdec e a (-1) false) as [ec [n|k| |]]; try contradiction; [destruct H as [H1 H2]; split; [left; exact H1|exact H2]|exact H].
+  - (* unary *) unfold refines. cbn [eval_c].
+    destruct (refines_cases e a (IHa e Hc Hs Hn)) as [(ec & n & v & Ec & Ha & Hk & Ei & Fv & Fr)|(ec & k & ei & k' & Ec & Ei)].
+    + rewrite Ec. cbn [abind]. split; [|exact Hk]. left. cbn [eval_i]. rewrite Ei. cbn [abind alift]. rewrite Fv. reflexivity.
+    + rewrite Ec. cbn [abind]. err_i Ei.
+  - (* binary *) apply split3 in Hc as (Hc1 & Hc2 & Hi). apply andb_true_iff in Hs as [Hs1 Hs2]. apply num_app in Hn as [Hn1 Hn2].
+    unfold indep in Hi. apply andb_true_iff in Hi as [_ Hd].
+    unfold refines. cbn [eval_c].
+    destruct (refines_cases e a1 (IHa1 e Hc1 Hs1 Hn1)) as [(e1 & nl & vl & Ec1 & Ha1 & Hk1 & Ei1 & Fv1 & Fr1)|(ec & k & ei & k' & Ec & Ei)];
+      [|rewrite Ec; cbn [abind]; err_i Ei].
+    rewrite Ec1. cbn [abind].
+    destruct (refines_cases e1 a2 (IHa2 e1 Hc2 Hs2 (num_keeps _ _ _ Hk1 Hn2))) as [(e2 & nr & vr & Ec2 & Ha2 & Hk2 & Ei2 & Fv2 & Fr2)|(ec & k & ei & k' & Ec & Ei)];
+      [|rewrite Ec; cbn [abind]; eexists; eexists; cbn [eval_i]; rewrite Ei1; cbn [abind]; rewrite Ei; reflexivity].
+    rewrite Ec2. cbn [abind alift].
+    destruct (agree_force_after e a1 e1 nl a2 e2 Ha1 Hd Fr2) as (vl' & Ei1' & Fl). rewrite Ei1 in Ei1'. inversion Ei1'; subst vl'.
+    assert (Ei : eval_i e (EBin o a1 a2) = (e2, match calc o nl nr with Ok n => Ok (VNum n) | Err k => Err k | Panic p => Panic p | OutOfFuel => OutOfFuel end)).
+    { cbn [eval_i]. rewrite Ei1. cbn [abind]. rewrite Ei2. cbn [abind alift]. rewrite Fl. cbn [abind]. rewrite Fv2. cbn [abind].
+      destruct (calc o nl nr); reflexivity. }
+    destruct (calc_total o nl nr) as [[n Hcalc]|[k Hcalc]]; rewrite Hcalc in Ei |- *.
+    + split; [left; exact Ei|eapply keeps_trans; eassumption].
+    + eauto.
+  - (* && *) apply andb_true_iff in Hc as [Hc1 Hc2]. apply andb_true_iff in Hs as [Hs1 Hs2]. apply num_app in Hn as [Hn1 Hn2].
+    unfold refines. cbn [eval_c].
+    destruct (refines_cases e a1 (IHa1 e Hc1 Hs1 Hn1)) as [(e1 & nl & vl & Ec1 & Ha1 & Hk1 & Ei1 & Fv1 & Fr1)|(ec & k & ei & k' & Ec & Ei)];
+      [|rewrite Ec; cbn [abind]; err_i Ei].
+    rewrite Ec1. cbn [abind].
+    destruct (inert_ok a2 e1 Hs2 (num_keeps _ _ _ Hk1 Hn2)) as (v2 & n2 & B1 & B2 & B3).
+    destruct (nl =? 0) eqn:E0.
+    + split; [|exact Hk1]. left. cbn [eval_i]. rewrite Ei1. cbn [abind]. rewrite B1. cbn [abind alift]. rewrite Fv1. cbn [abind]. rewrite E0. reflexivity.
+    + rewrite B3. cbn [abind]. split; [|exact Hk1]. left. cbn [eval_i]. rewrite Ei1. cbn [abind]. rewrite B1. cbn [abind alift]. rewrite Fv1. cbn [abind]. rewrite E0, B2. reflexivity.
+  - (* || *) apply andb_true_iff in Hc as [Hc1 Hc2]. apply andb_true_iff in Hs as [Hs1 Hs2]. apply num_app in Hn as [Hn1 Hn2].
+    unfold refines. cbn [eval_c].
+    destruct (refines_cases e a1 (IHa1 e Hc1 Hs1 Hn1)) as [(e1 & nl & vl & Ec1 & Ha1 & Hk1 & Ei1 & Fv1 & Fr1)|(ec & k & ei & k' & Ec & Ei)];
+      [|rewrite Ec; cbn [abind]; err_i Ei].
+    rewrite Ec1. cbn [abind].
+    destruct (inert_ok a2 e1 Hs2 (num_keeps _ _ _ Hk1 Hn2)) as (v2 & n2 & B1 & B2 & B3).
+    destruct (nl =? 0) eqn:E0.
+    + rewrite B3. cbn [abind]. split; [|exact Hk1]. left. cbn [eval_i]. rewrite Ei1. cbn [abind]. rewrite B1. cbn [abind alift]. rewrite Fv1. cbn [abind]. rewrite E0, B2. reflexivity.
+    + split; [|exact Hk1]. left. cbn [eval_i]. rewrite Ei1. cbn [abind]. rewrite B1. cbn [abind alift]. rewrite Fv1. cbn [abind]. rewrite E0. reflexivity.
+  - (* ?: *) apply split3 in Hc as (Hc1 & Hc2 & Hc3). apply split3 in Hs as (Hs1 & Hs2 & Hs3).
+    apply num_app in Hn as [Hn1 Hn23]. apply num_app in Hn23 as [Hn2 Hn3].
+    unfold refines. cbn [eval_c].
+    destruct (refines_cases e a1 (IHa1 e Hc1 Hs1 Hn1)) as [(e1 & nc & vc & Ec1 & Ha1 & Hk1 & Ei1 & Fv1 & Fr1)|(ec & k & ei & k' & Ec & Ei)];
+      [|rewrite Ec; cbn [abind]; err_i Ei].
+    rewrite Ec1. cbn [abind].
+    destruct (inert_ok a2 e1 Hs2 (num_keeps _ _ _ Hk1 Hn2)) as (v2 & n2 & B1 & B2 & B3).
+    destruct (inert_ok a3 e1 Hs3 (num_keeps _ _ _ Hk1 Hn3)) as (v3 & n3 & C1 & C2 & C3).
+    destruct (nc =? 0) eqn:E0.
+    + rewrite C3. split; [|exact Hk1]. left. cbn [eval_i]. rewrite Ei1. cbn [abind]. rewrite B1. cbn [abind]. rewrite C1. cbn [abind alift]. rewrite Fv1. cbn [abind]. rewrite E0, C2. reflexivity.
+    + rewrite B3. split; [|exact Hk1]. left. cbn [eval_i]. rewrite Ei1. cbn [abind]. rewrite B1. cbn [abind]. rewrite C1. cbn [abind alift]. rewrite Fv1. cbn [abind]. rewrite E0, B2. reflexivity.
+  - (* assignment *)
+    apply andb_true_iff in Hc as [Hc Hx]. apply split3 in Hc as (Hc1 & Hc2 & Hi). apply andb_true_iff in Hs as [Hs1 Hs2]. apply num_app in Hn as [Hn1 Hn2].
+    unfold refines. cbn [eval_c]. destruct (lval a1) as [x|] eqn:El.
+    + destruct (refines_cases e a2 (IHa2 e Hc2 Hs2 Hn2)) as [(e2 & nr & vr & Ec2 & Ha2 & Hk2 & Ei2 & Fv2 & Fr2)|(ec & k & ei & k' & Ec & Ei)];
+        [|rewrite Ec; cbn [abind]; eexists; eexists; cbn [eval_i]; rewrite (eval_i_lval a1 e x El); cbn [abind]; rewrite Ei; reflexivity].
+      rewrite Ec2. cbn [abind]. pose proof (eval_c_range a2 e e2 nr Ec2) as Rr.
+      destruct o as [op|].
+      * destruct (num_read e _ x Hn1 (lval_reads a1 x El)) as [m0 Hr0].
+        destruct (Hk2 x (ex_intro _ m0 Hr0)) as [ml Hrl].
+        cbn [alift]. rewrite Hrl. cbn [abind alift].
+        assert (Ei : eval_i e (EAssign (Some op) a1 a2) =
+                     match calc op ml nr with Ok n => (write_var e2 x n, Ok (VNum n)) | Err k => (e2, Err k) | Panic p => (e2, Panic p) | OutOfFuel => (e2, OutOfFuel) end).
+        { cbn [eval_i]. rewrite (eval_i_lval a1 e x El). cbn [abind]. rewrite Ei2. cbn [abind alift force]. rewrite Hrl. cbn [abind]. rewrite Fv2. cbn [abind].
+          destruct (calc op ml nr); reflexivity. }
+        destruct (calc_total op ml nr) as [[n Hcalc]|[k Hcalc]]; rewrite Hcalc in Ei |- *; cbn [abind alift]; [|eauto].
+        split; [left; exact Ei|]. eapply keeps_trans; [exact Hk2|]. apply keeps_write.
+        eapply calc_range; [eapply read_var_range; eassumption|exact Rr|exact Hcalc].
+      * split.
+        -- left. cbn [eval_i]. rewrite (eval_i_lval a1 e x El). cbn [abind]. rewrite Ei2. cbn [abind alift]. rewrite Fv2. reflexivity.
+        -- eapply keeps_trans; [exact Hk2|]. apply keeps_write, Rr.
+    + destruct (refines_cases e a1 (IHa1 e Hc1 Hs1 Hn1)) as [(e1 & nl & vl & Ec1 & Ha1 & Hk1 & Ei1 & Fv1 & Fr1)|(ec & k & ei & k' & Ec & Ei)];
+        [|err_i Ei].
+      destruct Ha1 as [Ha1|(x & _ & Hl & _)]; [|congruence].
+      destruct (refines_cases e1 a2 (IHa2 e1 Hc2 Hs2 (num_keeps _ _ _ Hk1 Hn2))) as [(e2 & nr & vr & Ec2 & Ha2 & Hk2 & Ei2 & Fv2 & Fr2)|(ec & k & ei & k' & Ec & Ei)];
+        eexists; eexists; cbn [eval_i]; rewrite Ha1; cbn [abind]; rewrite ?Ei2, ?Ei; cbn [abind]; reflexivity.
+Qed.
+
+(** the statement of the property on the model *)
+Theorem refines_C a e : c_defined a = true -> eager_safe a = true -> numeric_store e a = true ->
+  match eval_top_i e a, eval_c e a with
+  | (e1, Ok n1), (e2, Ok n2) => n1 = n2 /\ forall k, abs e1 k = abs e2 k
+  | (_, Err _), (_, Err _) => True
+  | _, _ => False
+  end.
+Proof.
+  intros Hc Hs Hn. unfold eval_top_i.
+  destruct (refines_cases e a (refines_all a e Hc Hs Hn)) as [(ec & n & v & Ec & Ha & Hk & Ei & Fv & Fr)|(ec & k & ei & k' & Ec & Ei)].
+  - rewrite Ec, Ei. cbn [abind alift]. rewrite Fv. split; reflexivity.
+  - rewrite Ec, Ei. cbn [abind]. exact I.
+Qed.
